@@ -692,7 +692,7 @@ class RandomPrograms:
             if alt:
                 nm = rng.choice(alt)
         kind = self.kind_of.setdefault(nm, rng.choice(self.kinds))
-        if 'named' in self.allow and rng.random() < 0.04:
+        if 'named' in self.allow and rng.random() < getattr(self, 'named_rate', 0.04):
             style = rng.choice(["'", '"', '`'])
             label = rng.choice(['2000', '2001']) if style == '`' else rng.choice(['p1', 'p2'])
             return Named(nm, kind, label, style)
